@@ -545,6 +545,50 @@ func checkC15(r *Result) {
 		body := joinToks(cv.Body)
 		r.check(strings.Contains(body, "if(_cumulativePower<_powerThreshold){revertInsufficientVotingPower();}"), "THRESHOLD", "BlobstreamO._checkValidatorSignatures # reverts when cumulative power < threshold", "evm/contracts/bridge/BlobstreamO.sol", "final comparison present")
 	}
+	// ---- ABI-ROLES at the snapshot call site: which value reaches which positional parameter of the encoder
+	if cs0 := P.Func("(x/bridge/keeper.Keeper).CreateSnapshot"); cs0 == nil {
+		r.broken("anchor CreateSnapshot does not resolve")
+	} else {
+		r.fn("(x/bridge/keeper.Keeper).CreateSnapshot")
+		tmC := NewTermer()
+		n := 0
+		for _, cs := range P.CallSitesIn(cs0) {
+			if cs.Callee != "(x/bridge/keeper.Keeper).EncodeOracleAttestationData" {
+				continue
+			}
+			n++
+			want := []struct {
+				role string
+				ok   func(t *Term) bool
+			}{
+				{"queryId = the snapshot's query id", func(t *Term) bool { return strings.HasPrefix(t.Op, "param:2:") }},
+				{"value = the aggregate's value", func(t *Term) bool { return strings.HasSuffix(t.Op, "Aggregate.AggregateValue") }},
+				{"timestamp = the report's timestamp", func(t *Term) bool {
+					return t.Op == "call:(time.Time).UnixMilli" && len(t.Args) == 1 && strings.HasPrefix(t.Args[0].Op, "param:3:")
+				}},
+				{"aggregatePower = the aggregate's reporter power", func(t *Term) bool { return strings.HasSuffix(t.Op, "Aggregate.ReporterPower") }},
+				{"previousTimestamp = timestamp before", func(t *Term) bool {
+					return t.Op == "call:(time.Time).UnixMilli" && t.Contains("GetTimestampBefore") && !t.Contains("GetTimestampAfter")
+				}},
+				{"nextTimestamp = timestamp after", func(t *Term) bool {
+					return t.Op == "call:(time.Time).UnixMilli" && t.Contains("GetTimestampAfter") && !t.Contains("GetTimestampBefore")
+				}},
+				{"valsetCheckpoint = the current checkpoint", func(t *Term) bool { return strings.HasSuffix(t.Op, "ValidatorCheckpoint.Checkpoint") }},
+				{"attestationTimestamp = the block time", func(t *Term) bool {
+					return t.Op == "call:(time.Time).UnixMilli" && len(t.Args) == 1 && t.Args[0].Op == "call:(github.com/cosmos/cosmos-sdk/types.Context).BlockTime"
+				}},
+			}
+			for i, w := range want {
+				a := tmC.Of(Arg(cs.Instr, i))
+				// a value passed through a field of a freshly built struct is that value
+				for strings.HasPrefix(a.Op, "field:") && len(a.Args) == 1 && a.Args[0].Op == "ref" && len(a.Args[0].Args) == 1 {
+					a = a.Args[0].Args[0]
+				}
+				r.check(w.ok(a), "ABI-ROLES", fmt.Sprintf("(x/bridge/keeper.Keeper).CreateSnapshot # encoder argument %d: %s", i, w.role), P.Pos(cs.Pos()), clip(a.String(), 140))
+			}
+		}
+		r.check(n == 1, "ABI-ROLES", "(x/bridge/keeper.Keeper).CreateSnapshot # one call of the attestation encoder", P.Pos(cs0.Pos()), fmt.Sprint(n))
+	}
 	// ---- ABI-VALUES: a *big.Int put into an element that is collected in a loop must be a value of that
 	// iteration; big.Int methods return their receiver, so a scratch value reused across iterations makes
 	// every collected element point at the last one
